@@ -181,6 +181,12 @@ def it_next_back(I, ctx, it):
     raise Unsupported('next_back on ' + repr(it)[:80])
 
 
+def _ho(ctx, it):
+    """iteration order of a hash container is not specified: a harness may ask for the reverse of insertion order (ctx.hash_rev)"""
+    if getattr(ctx, 'hash_rev', False): it.items = it.items[::-1]
+    return it
+
+
 def to_iter(I, ctx, v, byref=None):
     """IntoIterator for the container values of the interpreter"""
     v0 = deref(v)
@@ -192,9 +198,9 @@ def to_iter(I, ctx, v, byref=None):
         if byref: return ListIt([ElemRef(l, k) for k in range(lo, hi)])
         return ListIt(l[lo:hi])
     if isinstance(v0, HMap):
-        return ListIt([TUPLE(k, x) for k, x in v0.entries()]) if not isinstance(v, Ref) else ListIt([TUPLE(ValRef(k), v0.ref_of(k)) for k, _ in v0.entries()])
+        return _ho(ctx, ListIt([TUPLE(k, x) for k, x in v0.entries()]) if not isinstance(v, Ref) else ListIt([TUPLE(ValRef(k), v0.ref_of(k)) for k, _ in v0.entries()]))
     if isinstance(v0, HSet):
-        return ListIt(list(v0.items)) if not isinstance(v, Ref) else ListIt([ValRef(k) for k in v0.items])
+        return _ho(ctx, ListIt(list(v0.items)) if not isinstance(v, Ref) else ListIt([ValRef(k) for k in v0.items]))
     if isinstance(v0, Agg) and v0.variant in ('Some', 'None') and v0.name == 'Option':
         return ListIt(list(v0.fields))
     return v0
@@ -345,16 +351,16 @@ def _hm_clear(I, ctx, m):
 @model('re:^(std::collections::)?(Fnv)?HashMap::(values|into_values)$')
 def _hm_values(I, ctx, m):
     m0 = deref(m)
-    return ListIt([ElemRef(m0.vals, i) for i in range(len(m0.vals))]) if isinstance(m, Ref) else ListIt(list(m0.vals))
+    return _ho(ctx, ListIt([ElemRef(m0.vals, i) for i in range(len(m0.vals))]) if isinstance(m, Ref) else ListIt(list(m0.vals)))
 @model('re:^(std::collections::)?(Fnv)?HashMap::values_mut$')
 def _hm_values_mut(I, ctx, m):
-    m0 = deref(m); return ListIt([ElemRef(m0.vals, i) for i in range(len(m0.vals))])
+    m0 = deref(m); return _ho(ctx, ListIt([ElemRef(m0.vals, i) for i in range(len(m0.vals))]))
 @model('re:^(std::collections::)?(Fnv)?HashMap::keys$')
 def _hm_keys(I, ctx, m):
-    m0 = deref(m); return ListIt([ElemRef(m0.keys, i) for i in range(len(m0.keys))])
+    m0 = deref(m); return _ho(ctx, ListIt([ElemRef(m0.keys, i) for i in range(len(m0.keys))]))
 @model('re:^(std::collections::)?(Fnv)?HashMap::(iter|iter_mut)$')
 def _hm_iter(I, ctx, m):
-    m0 = deref(m); return ListIt([TUPLE(ElemRef(m0.keys, i), ElemRef(m0.vals, i)) for i in range(len(m0.keys))])
+    m0 = deref(m); return _ho(ctx, ListIt([TUPLE(ElemRef(m0.keys, i), ElemRef(m0.vals, i)) for i in range(len(m0.keys))]))
 @model('re:^(std::collections::)?(Fnv)?HashMap::entry$')
 def _hm_entry(I, ctx, m, k):
     m0 = deref(m); i = m0.find(I, ctx, k)
